@@ -31,9 +31,13 @@ def in_alphabet(b):
     return z3.Or(z3.And(z3.UGE(b, 65), z3.ULE(b, 90)), z3.And(z3.UGE(b, 97), z3.ULE(b, 122)), z3.And(z3.UGE(b, 48), z3.ULE(b, 57)), b == 43, b == 47)
 
 
+import re as _re18
+MERGE = [_re18.compile(r'convert_base64_char_to_number$')]   # pure char->number helper: summarised into one if-then-else value per call
+
+
 def case_roundtrip(prog, params):
     n = params['n']
-    ex = H.new_executor(prog, max_block_visits=300)
+    ex = H.new_executor(prog, max_block_visits=300); ex.merge_fns = MERGE
     cons = []
     data = SymStr.fresh('d', n, cons, exact_len=n) if n else SymStr(())
     st = State(); st.pc = list(cons)
@@ -96,7 +100,7 @@ def case_roundtrip(prog, params):
 def case_reject(prog, params):
     """decode(text) must be Err whenever text contains a character outside alphabet + '='.
     params: nbytes (byte length of the UTF-8 text), wide: allow one 2-byte UTF-8 character at position `at`"""
-    ex = H.new_executor(prog, max_block_visits=300); ex.allow_non_ascii = True
+    ex = H.new_executor(prog, max_block_visits=300); ex.allow_non_ascii = True; ex.merge_fns = MERGE
     n = params['nbytes']; at = params.get('at')
     cons = []
     text = SymStr.fresh('t', n, cons, exact_len=n)
